@@ -140,6 +140,14 @@ static void report(Engine& eng, vf::Result& r, CaseSpec c, const Outcome& first,
 	// compiler: if that agrees, the case is reported together with the programs that preceded it on this compiler, and the replay runs them in order (seeded change agent7_C19).
 	{ Engine fresh(eng.env); Outcome of = fresh.run(c); r.n["disagreements_checked"]++;
 	  if (of.agree) {
+		// a defect that depends on HOW MANY programs the object has translated (not on which): the same case repeated that many times on a fresh object
+		uint64_t reps = std::min<uint64_t>(eng.compiled, 4000); bool rep_ok = false;
+		if (reps > 8) { Engine again(eng.env); Outcome ol; for (uint64_t q = 0; q < reps; ++q) { ol = again.run(c); if (!ol.agree) break; } rep_ok = !ol.agree; r.n["disagreements_checked"]++; }
+		if (rep_ok && keys.insert("history-count").second) {
+			vf::Violation v; v.key = "history-count"; v.what = "A64 JIT != interpreter once the same compiler object has translated many programs (a fresh object agrees; the case repeated up to " + std::to_string(reps) + " times on one object disagrees) [" + std::string(c.family) + ", " + dims(c) + "]: " + first.what;
+			v.replay = case_json(c); v.replay.set("first_difference", first.what).set("repeat", (unsigned long long)reps); r.viol.push_back(v);
+			eng.reset_jit(); hist.clear(); return;
+		}
 		if (keys.insert("history").second) {
 			vf::Violation v; v.key = "history"; v.what = "A64 JIT != interpreter ONLY after the programs compiled before on the same compiler object (a fresh compiler agrees) [" + std::string(c.family) + ", " + dims(c) + "]: " + first.what;
 			v.replay = case_json(c); v.replay.set("first_difference", first.what); Json h = Json::arr(); for (auto& q : hist) h.push(case_json(q)); v.replay.set("history", h);
@@ -181,7 +189,7 @@ static vf::Result shard_main(const vf::Args& a, Env& env, const Plan& pl, int sh
 	auto one = [&](CaseSpec& c, const char* fam, bool sampled) {
 		c.family = fam;
 		// what the parent reports if this process dies inside the library's compiler (a crash of the translator is a verdict): the case and the programs translated before it
-		{ std::string js = case_json(c).dump(); std::string cur = js.substr(0, js.size() - 1) + ",\"finding_key\":\"a64:crash\",\"history\":["; bool f1 = true; for (auto& h : histjs) { if (!f1) cur += ","; cur += h; f1 = false; } cur += "]}"; vf::set_current(cur); curjs.swap(js); }
+		{ std::string js = case_json(c).dump(); std::string cur = js.substr(0, js.size() - 1) + ",\"finding_key\":\"a64:crash\",\"compiled_before\":" + std::to_string(eng.compiled) + ",\"history\":["; bool f1 = true; for (auto& h : histjs) { if (!f1) cur += ","; cur += h; f1 = false; } cur += "]}"; vf::set_current(cur); curjs.swap(js); }
 		Outcome o = eng.run(c);
 		r.n[sampled ? "programs_sampled" : "programs"]++; r.n[std::string("cases_") + fam]++;
 		if (c.mode) r.n["cases_light"]++; if (c.version == 2) r.n["cases_v2"]++; if (c.aes) r.n["cases_hard_aes"]++;
@@ -319,6 +327,8 @@ static int do_replay(const vf::Args& a) {
 	Engine eng(env);
 	if (j.has("history")) { for (auto& hj : j.at("history").a) { CaseSpec h; if (case_from_json(hj, h)) eng.run(h); } printf("replay: %zu earlier programs translated by the same compiler object first\n", j.at("history").a.size()); }
 	Outcome o = eng.run(c);
+	{ uint64_t reps = j.has("repeat") ? (uint64_t)j.at("repeat").num() : (j.has("compiled_before") ? std::min<uint64_t>((uint64_t)j.at("compiled_before").num(), 4000) : 0);
+	  if (o.agree && reps > 1) { for (uint64_t q = 1; q < reps && o.agree; ++q) o = eng.run(c); printf("replay: the case repeated up to %llu times on one compiler object\n", (unsigned long long)reps); } }
 	printf("replay [%s] %s: %s\n", c.family, dims(c).c_str(), o.agree ? "interpreter and emulated A64 JIT agree" : o.what.c_str());
 	std::vector<int> live = live_slots(c);
 	for (size_t i = 0; i < live.size() && i < 24; ++i) printf("  slot %d: %s\n", live[i], word_str(get(c.prog, live[i])).c_str());
